@@ -125,6 +125,9 @@ pub fn h_recursive_mutual<M: VMode>() {
         // a -> b -> definition: every hop of a declared parser (all handles here are owning ones) is guarded
         vassert2!(lg(inp, 0).rdepth == 2 && recurse_depth() == 0, "C12/recursive_mutual.every-hop-is-entered-through-the-stack-growth-guard", "C20/recursive_mutual.every-hop-is-entered-through-the-stack-growth-guard");
         forward_asserts!("C12/", "recursive_mutual", inp, s0, r);
+        // C13: a clone is as good as the value it was cloned from - also a clone taken before the definition,
+        // after the original handle is gone
+        forward_asserts!("C13/", "recursive_clone_taken_before_the_definition", inp, s0, r);
     });
 }
 /// recursive(|this| definition): the parser behaves as its definition (self-reference unused here).
